@@ -232,3 +232,170 @@ def _none_test(test, var):
 
 def stmt_has_ok(cfg, stmt):
     return bool(cfg.nodes_of(stmt, 'ok'))
+
+
+# ---- generic dataflow lints used by several properties --------------------------------------------
+def _target_names(t):
+    return {n.id for n in ast.walk(t) if isinstance(n, ast.Name)}
+
+
+def stale_loop_variables(ctx, rule, funcs, what):
+    """A loop / comprehension whose control variable is never used while its body reads the control variable of a
+    *different* loop is iterating one collection and reading another's leftover element (B007 with a witness)."""
+    from ..astutil import walk_local
+    from .common import func_label, loc
+
+    n = 0
+    for f in funcs:
+        loop_targets = {}
+        for node in ast.walk(f.node):
+            if isinstance(node, (ast.For, ast.AsyncFor)):
+                for nm in _target_names(node.target):
+                    loop_targets.setdefault(nm, []).append(node)
+            elif isinstance(node, ast.comprehension):
+                for nm in _target_names(node.target):
+                    loop_targets.setdefault(nm, []).append(node)
+        sites = []
+        for node in ast.walk(f.node):
+            if isinstance(node, (ast.For, ast.AsyncFor)):
+                sites.append((node, _target_names(node.target), node.body, node))
+            elif isinstance(node, (ast.ListComp, ast.SetComp, ast.GeneratorExp, ast.DictComp)):
+                parts = [node.key, node.value] if isinstance(node, ast.DictComp) else [node.elt]
+                for i, g in enumerate(node.generators):
+                    rest = parts + [x for g2 in node.generators[i + 1 :] for x in [g2.iter] + g2.ifs] + g.ifs
+                    sites.append((g, _target_names(g.target), rest, node))
+        for g, targets, body, owner in sites:
+            n += 1
+            used = {x.id for b in body for x in ast.walk(b) if isinstance(x, ast.Name) and isinstance(x.ctx, ast.Load)}
+            unused = {t for t in targets if not t.startswith('_') and t not in used}
+            if not unused:
+                continue
+            # names read in the body that are control variables of other loops only (not bound here)
+            bound_here = set()
+            if not isinstance(g, ast.comprehension):
+                bound_here = {x.id for b in body for x in ast.walk(b) if isinstance(x, ast.Name) and isinstance(x.ctx, ast.Store)}
+            else:
+                bound_here = {t for g2 in owner.generators for t in _target_names(g2.target)}
+            stale = sorted(nm for nm in used if nm in loop_targets and nm not in bound_here and nm not in targets and all(lt is not g for lt in loop_targets[nm]))
+            if stale and len(unused) == len([t for t in targets if not t.startswith('_')]):
+                ctx.fail(
+                    rule,
+                    f'{func_label(f)}|loop-variable-unused:{sorted(unused)[0]}',
+                    loc(f, owner),
+                    f'{what}: the loop over `{src_(g)}` never uses its variable `{sorted(unused)[0]}` and reads `{stale[0]}`, the leftover variable of another loop: '
+                    'every iteration processes the same stale element instead of the elements of this collection',
+                )
+    ctx.count('loops_checked_for_stale_variables', n)
+
+
+def src_(g):
+    from ..astutil import src
+
+    return src(g.iter, 50) if hasattr(g, 'iter') else '?'
+
+
+def values_fresh_in_iteration(ctx, rule, f, loop, use_stmt, names, what):
+    """Each of `names` read by `use_stmt` inside `loop` is (re)defined on every path of the *current* iteration before
+    the use - or is an accumulator updated in the loop.  Otherwise a value of an earlier iteration can be used."""
+    from ..cfg import cfg_of
+    from ..astutil import walk_local
+    from .common import func_label, loc
+
+    cfg = cfg_of(f.node)
+    starts = cfg.nodes_of(loop, 'true')
+    use_nodes = cfg.nodes_of(use_stmt, 'stmt')
+    for nm in sorted(names):
+        defs = []
+        accumulator = False
+        for n in walk_local(loop):
+            if isinstance(n, ast.Name) and n.id == nm and isinstance(n.ctx, ast.Store):
+                st = n
+                while st is not None and not isinstance(st, ast.stmt):
+                    st = getattr(st, '_parent', None)
+                if isinstance(st, ast.AugAssign):
+                    accumulator = True
+                elif isinstance(st, ast.Assign) and any(isinstance(x, ast.Name) and x.id == nm and isinstance(x.ctx, ast.Load) for x in ast.walk(st.value)):
+                    accumulator = True
+                elif st is loop:
+                    defs.append(('target', st))
+                elif st is not None:
+                    defs.append(('stmt', st))
+        if accumulator or any(k == 'target' for k, _ in defs):
+            continue
+        if not defs:
+            continue  # defined outside the loop: a constant of the loop
+        dnodes = [x for _k, st in defs for x in (cfg.nodes_of(st, 'ok') or cfg.nodes_of(st, 'stmt'))]
+        stale = None
+        for s0 in starts:
+            for u in use_nodes:
+                stale = stale or cfg.path(s0, [u], avoid=dnodes, kinds=('normal',))
+        ctx.check(
+            stale is None,
+            rule,
+            f'{func_label(f)}|fresh-in-iteration:{nm}',
+            loc(f, use_stmt),
+            f'{what}: `{nm}` is computed in the current iteration on every path before it is used',
+            f'{what}: `{nm}` is assigned only on some paths of the loop body, so the value computed for an EARLIER element can be used for the current one (stale value)',
+            cfg.describe_path([x for x in (stale or []) if x.kind in ('stmt', 'true', 'false', 'test')][:8], f.module),
+        )
+
+
+def file_digest_covers_stream(ctx, rule):
+    """The digest recorded for a file is the repository hash of exactly the bytes streamed for it: the hasher is the
+    repository's incremental hasher, and every block read is fed to it before it is yielded to the chunker."""
+    from ..astutil import deref, dotted, enclosing_stmt, walk_local
+    from ..cfg import cfg_of
+    from .common import func_label, loc, stream_producers
+
+    corpus = ctx.corpus
+    snap = corpus.func('repository', 'Repository.snapshot')
+    n = 0
+    for p in stream_producers(snap):
+        cfg = cfg_of(p.node)
+        for a in walk_local(p.node):
+            if not (isinstance(a, ast.Assign) and any(isinstance(t, ast.Attribute) and t.attr == 'digest' for t in a.targets) and isinstance(a.value, ast.Call) and isinstance(a.value.func, ast.Attribute) and isinstance(a.value.func.value, ast.Name)):
+                continue
+            n += 1
+            H = a.value.func.value.id
+            hdef = deref(p.node, a.value.func.value)
+            feeds = [c for c in ast.walk(p.node) if isinstance(c, ast.Call) and isinstance(c.func, ast.Attribute) and c.func.attr in ('feed', 'update') and isinstance(c.func.value, ast.Name) and c.func.value.id == H]
+            is_repo_hasher = isinstance(hdef, ast.Call) and (dotted(hdef.func) or '').endswith('incremental_hasher')
+            if not is_repo_hasher:
+                cname = dotted(hdef.func) if isinstance(hdef, ast.Call) else None
+                ci = p.module.classes.get(cname) if cname else None
+                ok_cls = False
+                why = f'`{H}` is `{src_expr(hdef)}`, not the repository\'s incremental hasher'
+                if ci is not None:
+                    fm = ci.methods.get('feed') or ci.methods.get('update')
+                    if fm is not None:
+                        fcfg = cfg_of(fm.node)
+                        prm = [x.arg for x in fm.node.args.posonlyargs + fm.node.args.args][1:]
+                        inner = [enclosing_stmt(c) for c in ast.walk(fm.node) if isinstance(c, ast.Call) and isinstance(c.func, ast.Attribute) and c.func.attr in ('feed', 'update') and any(isinstance(x, ast.Name) and x.id in prm for y in c.args for x in ast.walk(y))]
+                        nodes = [x for st in inner for x in fcfg.nodes_of(st, 'stmt')]
+                        skip = fcfg.path(fcfg.entry, [fcfg.exit], avoid=nodes, kinds=('normal',)) if nodes else [fcfg.entry]
+                        ok_cls = skip is None
+                        why = f'`{cname}.{fm.name}` can return without passing the block to a hasher (line {fm.node.lineno}): the recorded digest does not cover every streamed block'
+                ctx.check(ok_cls, rule, f'{func_label(p)}|file-digest-by-repository-hasher', loc(p, a), 'the file digest comes from a hasher that receives every block', f'file digest: {why} - the `digest` recorded in the snapshot is not the hash of the file\'s bytes (other readers of the format reject or mis-verify the file)')
+            ctx.check(bool(feeds), rule, f'{func_label(p)}|file-digest-fed', loc(p, a), f'`{H}` is fed in the read loop', f'the hasher `{H}` whose digest is recorded for the file is never fed')
+            # every yielded block was fed first
+            for y in [y for y in walk_local(p.node) if isinstance(y, ast.Yield) and isinstance(y.value, ast.Name)]:
+                fed = [enclosing_stmt(c) for c in feeds if any(isinstance(x, ast.Name) and x.id == y.value.id for x in ast.walk(c))]
+                if not fed:
+                    continue
+                fnodes = [x for st in fed for x in cfg.nodes_of(st, 'ok') or cfg.nodes_of(st, 'stmt')]
+                ynodes = cfg.nodes_of(enclosing_stmt(y), 'stmt')
+                ctx.check(
+                    all(cfg.set_dominates(fnodes, x) for x in ynodes),
+                    rule,
+                    f'{func_label(p)}|block-hashed-before-yield',
+                    loc(p, enclosing_stmt(y)),
+                    f'every block `{y.value.id}` handed to the chunker has been fed to the file hasher',
+                    f'a block `{y.value.id}` can be handed to the chunker without having been fed to the file hasher: the recorded file digest misses data',
+                )
+    ctx.floor(rule, 'file digest assignments in the stream producer', n)
+
+
+def src_expr(e):
+    from ..astutil import src
+
+    return src(e, 60) if e is not None else '?'
